@@ -3,6 +3,7 @@
    Property theorems only; proofs: Proofs/ConstantsProgramMach.v (machine: frame lemma, relocation, lock step,
    block lines), ConstantsProgramLink.v (component lists -> programs), ConstantsProgram.v (composition),
    ConstantsProgramText.v (the printed texts), ConstantsProgramCompile.v (the compiler model's two texts),
+   ConstantsProgramLiterals.v (Bytes(...) spellings are single tokens),
    ConstantsProgramExamples.v.
 
    Reading of a component list: [clink sigma msel ver code] = AVM.Parse.build_prog (the assembler's own label
@@ -24,7 +25,8 @@ From PV Require Import Base.Bytes Base.Sexp AVM.Syntax AVM.Machine AVM.Parse
   Src.Expr Comp.Lower Comp.Compile
   Comp.Assemble Comp.Constants Comp.ConstantsSpec Proofs.C18Text Proofs.StageEText Proofs.ConstantsProof Proofs.ConstantsSim
   Proofs.ConstantsProgramMach Proofs.ConstantsProgramLink Proofs.ConstantsProgram
-  Proofs.ConstantsProgramText Proofs.ConstantsProgramCompile Proofs.ConstantsProgramExamples.
+  Proofs.ConstantsProgramText Proofs.ConstantsProgramCompile Proofs.ConstantsProgramLiterals
+  Proofs.ConstantsProgramExamples.
 Import ListNotations.
 Local Open Scope string_scope.
 
@@ -292,6 +294,13 @@ Theorem C12_load_line_reads_back :
       forall ss, cstmt_of id_sigma msel (COp (mkI o (pre ++ tail))) = Some ss -> line_stmts msel line = Some ss.
 Proof. exact wordy_line. Qed.
 Print Assumptions C12_load_line_reads_back.
+
+(* [F] the hypothesis [single_tok] holds for every spelling the Bytes(...) constructors print (C13's model
+   Lit/BaseN.v: utf-8 string with escapes, raw bytes, base32, base64, base16) *)
+Theorem C12_bytes_literals_single_token :
+  forall a s, Lit.BaseN.bytes_payload a = Some s -> single_tok_instr (mkI O_byte [AStr s]) = true.
+Proof. exact bytes_literal_single_tok. Qed.
+Print Assumptions C12_bytes_literals_single_token.
 
 (* ---- non-vacuity, text level: the example program without its placeholder; hypotheses hold by computation ---- *)
 Example C12_text_example :
